@@ -17,6 +17,7 @@ P = {
 def sx(text, ref, tech="symbolic execution of the generic code (T=Sym) over all sector paths + z3 QF_NRA/QF_UFNRA queries, native replay"):
     return dict(text=text, design_ref=ref, technique=tech, note=SYMX_NOTE)
 P.update({
+ "C16": sx("decompose_for_tropical is executed with IEEE-754 binary64 semantics on symbolic f64 entries (n=1; n=2 diagonal; n=2 full as counterexample search in the thorough tier), every value including NaN, infinities and subnormals, and a symbolic tolerance >= 0: z3 (QF_FP, bit-precise) proves that Ok implies determinant != 0, that any answer other than ZeroDet implies a non-zero Cholesky pivot product, and that with Some(tol) an Ok result has |inverse*M-1|_{2,1} <= tol and no NaN in any returned field.", "§6 C16", "symbolic execution of decompose_for_tropical (T=Sym, IEEE mode) + z3 QF_FP bit-precise queries; native replay"),
  "C02": sx("With the Feynman parameters abstracted to arbitrary positive reals (so every x-space point and sector is covered) and fixed rational kinematics per catalogue graph, z3 proves U_tr <= u <= N_T U_tr and (c_min/N_T) V_tr <= v <= C_sum V_tr for the code's u and v, the maxima being encoded by quantifier alternation over the finitely many monomials (oracle: exact spanning-tree / 2-forest enumeration); the tropical normalisation U_tr^(D/2) V_tr^dod = 1 comes from the C07 part, and a log-space lemma composes them into the stated interval for jacobian/normalisation.", "§6 C02", "symbolic execution (T=Sym) + z3 QF_NRA with disjunctive monomial bounds, QF_LRA composition lemma"),
  "C11": sx("On every sector path: u_trop = v_trop = 1; jacobian = cached_factor * u^(-D/2) * v^(-dod) and = cached_factor * (U_tr/U)^(D/2) (V_tr/V)^dod at the unrescaled parameters (log-linear z3 queries with the code's own scaling term), cached_factor = I_tr*Gamma(dod)/prod Gamma(w)*pi^(DL/2) with I_tr from the oracle's exact J recursion, and the homogeneity facts U(x) = s^L U(x~), F(x) = s^(L+1) F(x~), u = U(x).", "§6 C11", "symbolic execution of sample() (T=Sym) + z3 QF_LRA (log-linear) and QF_NRA queries"),
  "C07": sx("On every sector path of every catalogue graph (debug log of feature `log` as observation point): z3 proves, in log space where products and constant powers are linear (exact for positive quantities), that x~ of the k-th removed edge is prod_{j<k} xi_j^(1/omega(g_j)) with omega from the oracle, that u_trop and u_trop*v_trop before rescaling are the dominating monomials of U and F and every other monomial is below them, that x = s*x~ with one common s, and that (s^L u_trop)^(D/2) (s v_trop)^dod = 1.", "§6 C07", "symbolic execution of permatuhedral_sampling (T=Sym) + z3 QF_LRA on log-linearised monomial identities"),
